@@ -207,7 +207,7 @@ static void genResponseSide(vf::Rng& r, Plan& p, int forceKind = -1)
 	p.kind = (RKind)k;
 	switch (p.kind) {
 	case K_FIXED: p.resBody = randBytes(r, pickSize(r)); break;
-	case K_TEXT: { p.resBody = randBytes(r, pickSize(r)); for (auto& ch : p.resBody) if (!ch) ch = ' '; break; }
+	case K_TEXT: { p.resBody = randBytes(r, pickSize(r)); if (!r.chance(0.25)) for (auto& ch : p.resBody) if (!ch) ch = ' '; break; }   // a String carries its length: a quarter of the text bodies keep their zero bytes
 	case K_JSON: { jm::TreeOpt o; o.maxdepth = 3; o.budget = 60; p.json = jm::randTree(r, o); asl::String e = Json::encode(jm::toVar(p.json)); p.resBody = std::string(*e, e.length()); p.resHeaders.erase("Content-Type"); break; }
 	case K_FILE: {
 		size_t n = r.chance(0.5) ? r.range(1, 40) : pickSize(r);
@@ -325,7 +325,7 @@ static void runLib(vf::Ctx& c, int nreq, int nthreads, int forceKind)
 		if (plans[i].reqBody.size() && forceKind != K_STREAM) {
 			Plan& p = plans[i];
 			int bf = c.rng.below(6);
-			if (bf == 1) { for (auto& ch : p.reqBody) if (!ch) ch = ' '; p.bodyForm = 1; if (p.kind == K_ECHO) p.resBody = p.reqBody; }
+			if (bf == 1) { if (!c.rng.chance(0.25)) for (auto& ch : p.reqBody) if (!ch) ch = ' '; p.bodyForm = 1; if (p.kind == K_ECHO) p.resBody = p.reqBody; }
 			else if (bf == 2) { p.bodyForm = 2; p.bodyFile = g_scratch + "/b_" + ids[i] + ".bin"; FILE* f = fopen(p.bodyFile.c_str(), "wb"); if (f) { fwrite(p.reqBody.data(), 1, p.reqBody.size(), f); fclose(f); } }
 			else if (bf == 3) { jm::TreeOpt o; o.maxdepth = 3; o.budget = 40; jm::JV t = jm::randTree(c.rng, o); if (t.k != jm::JV::A && t.k != jm::JV::O) { jm::JV a = jm::JV::mk(jm::JV::A); a.a.push_back(t); t = a; } p.bodyTree = std::make_shared<jm::JV>(t); asl::String e = Json::encode(jm::toVar(t)); p.reqBody = std::string(*e, e.length()); p.bodyForm = 3; if (p.kind == K_ECHO) p.resBody = p.reqBody; }
 		}
